@@ -7,14 +7,16 @@ spec = {"mode": "proc", "run_dir": …, "out": …, "opts": {…}, "actions": [.
 actions (executed in order, with the REAL code):
     ["init", sid, step]            put the run into the deterministic state `sid` at `step`
     ["resume"]                     fresh TrainingRun/TrainState + `load_or_init_model`
+    ["save_model", dir]            `xformer.loading.save_model` of the current model into `dir`
     ["train", seed]                one real `TrainingRun.train_step` on a synthetic rollout batch
     ["hook", "after_step"|"after_run", freq]   the real `SavingHook` method
 Before the first hook action the process attaches `strace` to ITSELF (so that only the save is
 traced and `when=<n>` counts from there); with `inject` set, strace kills the process on entry
 to the n-th call of the named system call (the call is not executed).
 
-spec = {"mode": "resume", "out": …, "opts": {…}, "dirs": [...]}: classify each run directory
-with the real resume logic, each on a fresh TrainingRun/TrainState."""
+spec = {"mode": "resume", "out": …, "opts": {…}, "dirs": [...], "configs": [{"name", "load_model"}]}:
+run the real resume logic on each run directory under each `load_model` configuration, each on
+a fresh TrainingRun/TrainState, and report what was restored."""
 import json
 import os
 import subprocess
@@ -80,7 +82,7 @@ def run_proc(spec):
             sc.init_state(run, int(act[1]), int(act[2]))
             out["actions"].append({"act": act, "fp": sc.fingerprint(run.state)})
         elif kind == "resume":
-            run, (k, detail) = sc.resume_outcome(spec["run_dir"], spec.get("opts"))
+            run, (k, detail, _) = sc.resume_outcome(spec["run_dir"], spec.get("opts"))
             out["actions"].append({"act": act, "resume": [k, detail]})
             if k == "error":
                 out["failed"] = "resume raised " + str(detail)
@@ -90,8 +92,13 @@ def run_proc(spec):
         elif kind == "train":
             if not hasattr(run, "train_params"):
                 run.serve_mode()
+            m.torch.manual_seed(104729 * int(act[1]) + 3)  # train_step shuffles with the default generator
             run.train_step(sc.make_batch(int(act[1])))
             out["actions"].append({"act": act, "fp": sc.fingerprint(run.state)})
+        elif kind == "save_model":
+            # a model-only directory, as the supervised pre-training writes it
+            m.xformer.loading.save_model(run.state.model, act[1])
+            out["actions"].append({"act": act, "done": True})
         elif kind == "hook":
             if hook is None or hook.freq != int(act[2]):
                 hook = m.saving.SavingHook(freq=int(act[2]))
@@ -114,9 +121,15 @@ def run_proc(spec):
 
 def run_resume(spec):
     res, files = {}, {}
+    configs = spec.get("configs") or [{"name": "unset", "load_model": None}]
     for d in spec["dirs"]:
-        _, (k, detail) = sc.resume_outcome(d, spec.get("opts"))
-        res[d] = [k, detail]
+        res[d] = {}
+        for c in configs:
+            opts = dict(spec.get("opts") or {})
+            opts["load_model"] = c.get("load_model")
+            # each configuration on its own fresh TrainingRun / model / optimiser
+            _, (k, detail, base) = sc.resume_outcome(d, opts)
+            res[d][c["name"]] = [k, detail, base]
         files[d] = sc.file_digests(d)
     write_json(spec["out"], {"resume": res, "files": files, "completed": True})
 
